@@ -65,6 +65,8 @@ RecProgs == { NSort(NVar(""), <<[dir |-> "", e |-> K]>>), NSort(NVar(""), <<[dir
 \* through ~> and handed to a higher-order function
 Callees == { NVar("sum"), NVar("uppercase"), NVar("substringBefore"), NLambda(<<"x">>, NVar("x")), NLambda(<<>>, NNum(IntV(1))),
              NLambda(<<"a", "b">>, NArray(<<NVar("a"), NVar("b")>>)),
+             NLambda(<<"a", "b", "c", "d">>, NBool(TRUE)), NLambda(<<"a", "b", "c", "d", "e">>, NVar("d")), NVar("replace"), NVar("formatNumber"),
+             NPartial(NVar("replace"), <<NPlace, NPlace, NPlace, NPlace>>), NPartial(NLambda(<<"a", "b", "c", "d", "e">>, NVar("e")), <<NPlace, NPlace, NPlace, NPlace, NPlace>>),
              NPartial(NVar("substring"), <<NPlace, NNum(IntV(1))>>), NPartial(NVar("append"), <<NPlace, NPlace>>),
              NBlock(<<NApply(NVar("uppercase"), NVar("lowercase"))>>), NBlock(<<NApply(NApply(NVar("string"), NVar("uppercase")), NVar("length"))>>),
              NBlock(<<NApply(NLambda(<<"x">>, NVar("x")), NVar("count"))>>),
